@@ -23,7 +23,14 @@ RULE = ("boundary corpus (every sequence of up to 4 matching category depths 0..
         "through the three routes direct / aw_query.functions registry / aw_query.query program (every ordered pair of "
         "(select_keys, ignore_case) variants of one regex, one call each and both in one rule list; every pair of "
         "transforms with the first result and its arguments edited in place in between; rule objects edited in place "
-        "between calls; two-stage programs; seeded random sessions) and 10 001-event inputs")
+        "between calls; two-stage programs; seeded random sessions) and 10 001-event inputs; round 5 "
+        "(harness/c19_edge.py): every transform with `events` (and the rule list) handed over as list / tuple / deque / list "
+        "subclass / generator / iter / reversed / map / filter (judged where the unchanged tree treats the kind like a list, "
+        "counted otherwise), with data dicts that are defaultdict(str|list|int) / Counter / OrderedDict / a dict with "
+        "__missing__ / hold Str, Int, tuple values, int keys and nested dict subclasses, for events WITH and WITHOUT the key "
+        "the transform looks for (url, the simplified key, the select_keys of a rule whose regex would match the default), "
+        "with durations at and around 2**53 us, negative, zero, timedelta.min / max and timestamps over years 1..9999, with "
+        "unrelated data nested 300..900 deep under the default recursion limit and a MemoryError injected into the deep copy")
 
 KEYS = {"url": 1, "title": 2, "app": 3, "$category": 4, "$tags": 5, "$protocol": 6, "$domain": 7,
         "$path": 8, "$params": 9, "$options": 10, "$identifier": 11}
@@ -53,6 +60,21 @@ class Tab:
         self.keys = dict(KEYS)
         self.keyname = {v: k for k, v in KEYS.items()}
         self.others = []
+        self.bigs = []
+
+    BIG = 2 ** 61      # ocaml/main.ml reads integers through OCaml's native 63-bit int
+
+    def num(self, n):
+        """timestamps and durations are opaque to the model (no transform of C19 computes with them): beyond what
+        the driver's integer glue reads they travel as labels (round 5: timedelta.max is 8.6e19 us)"""
+        if -self.BIG < n < self.BIG:
+            return n
+        if n not in self.bigs:
+            self.bigs.append(n)
+        return (self.BIG + self.bigs.index(n)) * (1 if n > 0 else -1)
+
+    def unnum(self, n):
+        return n if -self.BIG < n < self.BIG else self.bigs[abs(n) - self.BIG]
 
     def s(self, x):
         if x not in self.sidx:
@@ -94,11 +116,11 @@ class Tab:
 
     def event(self, view):
         i, t, d, items = view
-        return [opt(i), t, d, self.data(items)]
+        return [opt(i), self.num(t), self.num(d), self.data(items)]
 
     def unevent(self, w):
         i, t, d, x = w
-        return (None if i == [] else i[0], t, d, self.undata(x))
+        return (None if i == [] else i[0], self.unnum(t), self.unnum(d), self.undata(x))
 
 
 def view(e):
@@ -741,6 +763,10 @@ def main(argv=None):
                             {"session": c19_hist.readable(steps)[:4]})
         n_sessions += 1
     ck.coverage["history"] = {"sessions": n_sessions, "calls": len(runner.history), "seconds": round(time.time() - t_h, 1)}
+    # round 5: container kinds, data dict TYPES, numeric extremes, faults (harness/c19_edge.py); every call's plain reading
+    # goes through `process`, the typed frame / identity / fault clauses are judged there
+    from . import c19_edge
+    c19_edge.run(ck, sys.modules[__name__], process, runner.env)
     cases = done
     if have_driver:
         model = common.run_driver("C19", wires)
@@ -786,7 +812,20 @@ def main(argv=None):
                        "Props/C19fresh.v - what the call creates is referred to by one object only), and the later calls "
                        "of the session run with those edits in place (signature C19:aliasing; a failing session is "
                        "re-run and minimised in fresh interpreters)",
-                       "round 3: one input of 10 001 events per transform (registry / direct route)"]
+                       "round 3: one input of 10 001 events per transform (registry / direct route)",
+                       "round 5 (harness/c19_edge.py): an exotic input is judged through its PLAIN READING (dict subclasses as "
+                       "dicts, Str / Int as str / int; values nested deeper than 40 as tokens) by the statement oracle and the "
+                       "model, and through a TYPED frame by the harness: the data dict keeps its type, no key is added or "
+                       "removed beyond the owned ones, every other value is same-typed (a tuple is not a list); the domain of "
+                       "timestamps / durations is every representable value (no transform of C19 computes with them; beyond "
+                       "2**61 they travel to the model as labels); container kinds the unchanged tree does not treat like a "
+                       "list (one-shot iterables for split_url_events / simplify_string / the rule list) are run and counted "
+                       "(container-left-out:...), not judged; simplify_string on a defaulting dict that lacks the key is judged "
+                       "with the key read as the dict's default (what `e.data[key]` reads)",
+                       "round 5: under a fault (default recursion limit on deeply nested data, a MemoryError in copy.deepcopy "
+                       "or in the copy of one data value) a call raises RecursionError / MemoryError or returns exactly the "
+                       "fault-free result; the caller's events stay as they were (simplify_string) / change in their owned "
+                       "keys only"]
     from . import theap2           # heap-level model of the C19 transforms (Props/C19own.v), tie A with aliasing
     if "C19" in theap2.GROUPS:
         theap2.heap_check(ck, "C19", have_driver=theap2.prepare(ck, "C19"))
